@@ -68,6 +68,9 @@ def _gen_base(tier, rng):
     yield initgen.c01_script(rng, [1], [0], False, "shared-key", keyA=0, keyB=0)
     yield initgen.c01_script(rng, [0, 1], [1], False, "untrusted-signer")
     yield initgen.cfg_script(rng, "config-path")
+    # well-formed and ill-formed content genuinely signed by a trusted / an untrusted key ("a well-formed message signed with an untrusted key")
+    for s in initgen.signed_parts_scripts(rng.fork("signed"), thorough):
+        yield s
 
 
 def gen(tier, rng):
